@@ -66,6 +66,8 @@ structure CInv (d : Dev) (s : S) : Prop where
   ts : s.connTs = true → s.link = true ∧ s.stage = .up
   fixed : s.fixD21 = true
   deadSt : s.dead = true → s.link = true ∧ s.st = .disc ∧ s.stage = .src ∧ s.inq = []
+  fixedAbort : s.fixAbort = true
+  fixedFirst : s.fixFirst = true
 
 
 /-- closes a `CInv` goal for an explicitly computed state -/
@@ -84,7 +86,7 @@ def L : List Out := [.linkFailed, .cb .disconnected, .cb .lost]
 theorem err_core (d : Dev) (s : S) (h : CInv d s) (hl : s.link = true) (hd : s.dead = false) :
     CInv d (linkErrorCb s).1 ∧ phase (linkErrorCb s).1 = .idle ∧
     ((phase s = .req ∧ (linkErrorCb s).2 = E) ∨ (phase s ≠ .req ∧ phase s ≠ .idle ∧ (linkErrorCb s).2 = L)) := by
-  obtain ⟨h1, h2, h3, h4, h5, h6, h7, h8, h9, h10⟩ := h
+  obtain ⟨h1, h2, h3, h4, h5, h6, h7, h8, h9, h10, h11, h12⟩ := h
   have h2' := h2 hl hd
   rw [linkErrorCb_eq]
   cases hs : s.st
@@ -141,14 +143,14 @@ theorem send_fail (r : Option Pkt) (s : S) (hl : s.link = true) (hd : s.dead = f
 
 theorem deliver_init (d : Dev) (s : S) (h : CInv d s) (hl : s.link = true) (hd : s.dead = false) (hs : s.st = .init) :
     CInv d (deliver d s).1 ∧ ((deliver d s).2, phase (deliver d s).1) ∈ shapes .deliver .req := by
-  obtain ⟨h1, h2, h3, h4, h5, h6, h7, h8, h9, h10⟩ := h
+  obtain ⟨h1, h2, h3, h4, h5, h6, h7, h8, h9, h10, h11, h12⟩ := h
   have h2' := h2 hl hd
   have h3' := h3 hl hd
   simp only [hs, true_and, reduceCtorEq, false_and, or_false] at h2'
   obtain ⟨hcb, hstage⟩ := h2'
   simp only [stageOk, hstage] at h3'
   obtain ⟨hinq, hpar⟩ := h3'
-  obtain ⟨st, link, initCb, inq, armed, stage, upd, exts, parToc, vals, isUpdated, connTs, logGot, extGot, dead, fx⟩ := s
+  obtain ⟨st, link, initCb, inq, armed, stage, upd, exts, parToc, vals, isUpdated, connTs, logGot, extGot, dead, fa, ff, cl, fx⟩ := s
   simp only at *
   subst hl hd hs hcb hstage hinq hpar
   cases armed <;> cases hm : d.magic <;>
@@ -170,14 +172,14 @@ theorem deliver_chain (d : Dev) (s : S) (h : CInv d s) (hl : s.link = true) (hd 
     (hne : s.stage ≠ .ext) (hnu : s.stage ≠ .up) :
     CInv d (deliver d s).1 ∧ ((deliver d s).2, phase (deliver d s).1) ∈ shapes .deliver .est ∧
     (.cb .connected ∈ (deliver d s).2 → complete d (deliver d s).1) ∧ .cb .fully ∉ (deliver d s).2 := by
-  obtain ⟨h1, h2, h3, h4, h5, h6, h7, h8, h9, h10⟩ := h
+  obtain ⟨h1, h2, h3, h4, h5, h6, h7, h8, h9, h10, h11, h12⟩ := h
   have h2' := h2 hl hd
   have h3' := h3 hl hd
   have h4' := h4 hne
   have h5' := h5 hnu
   have h7' := h7 hl ⟨hne, hnu⟩
   simp only [hs, true_and, reduceCtorEq, false_and, false_or] at h2'
-  obtain ⟨st, link, initCb, inq, armed, stage, upd, exts, parToc, vals, isUpdated, connTs, logGot, extGot, dead, fx⟩ := s
+  obtain ⟨st, link, initCb, inq, armed, stage, upd, exts, parToc, vals, isUpdated, connTs, logGot, extGot, dead, fa, ff, cl, fx⟩ := s
   obtain ⟨q, locked, pat⟩ := upd
   simp only at *
   subst hl hd hs h2' h4' h7'
@@ -204,13 +206,13 @@ theorem deliver_chain (d : Dev) (s : S) (h : CInv d s) (hl : s.link = true) (hd 
 theorem deliver_ext (d : Dev) (s : S) (h : CInv d s) (hl : s.link = true) (hd : s.dead = false) (hs : s.st = .conn) (hst : s.stage = .ext) :
     CInv d (deliver d s).1 ∧ ((deliver d s).2, phase (deliver d s).1) ∈ shapes .deliver .est ∧
     (.cb .connected ∈ (deliver d s).2 → complete d (deliver d s).1) ∧ .cb .fully ∉ (deliver d s).2 := by
-  obtain ⟨h1, h2, h3, h4, h5, h6, h7, h8, h9, h10⟩ := h
+  obtain ⟨h1, h2, h3, h4, h5, h6, h7, h8, h9, h10, h11, h12⟩ := h
   have h2' := h2 hl hd
   have h3' := h3 hl hd
   have h5' := h5 (by simp [hst])
   have h6' := h6 hl (by simp [hst])
   simp only [hs, true_and, reduceCtorEq, false_and, false_or] at h2'
-  obtain ⟨st, link, initCb, inq, armed, stage, upd, exts, parToc, vals, isUpdated, connTs, logGot, extGot, dead, fx⟩ := s
+  obtain ⟨st, link, initCb, inq, armed, stage, upd, exts, parToc, vals, isUpdated, connTs, logGot, extGot, dead, fa, ff, cl, fx⟩ := s
   obtain ⟨q, locked, pat⟩ := upd
   simp only at *
   subst hl hd hs h2' hst h6'
@@ -241,12 +243,12 @@ theorem deliver_ext (d : Dev) (s : S) (h : CInv d s) (hl : s.link = true) (hd : 
 theorem deliver_up (d : Dev) (s : S) (h : CInv d s) (hl : s.link = true) (hd : s.dead = false) (hs : s.st = .conn) (hst : s.stage = .up) :
     CInv d (deliver d s).1 ∧ ((deliver d s).2, phase (deliver d s).1) ∈ shapes .deliver (phase s) ∧
     .cb .connected ∉ (deliver d s).2 ∧ (.cb .fully ∈ (deliver d s).2 → allVals d (deliver d s).1) := by
-  obtain ⟨h1, h2, h3, h4, h5, h6, h7, h8, h9, h10⟩ := h
+  obtain ⟨h1, h2, h3, h4, h5, h6, h7, h8, h9, h10, h11, h12⟩ := h
   have h2' := h2 hl hd
   have h3' := h3 hl hd
   have h4' := h4 (by simp [hst])
   simp only [hs, true_and, reduceCtorEq, false_and, false_or] at h2'
-  obtain ⟨st, link, initCb, inq, armed, stage, upd, exts, parToc, vals, isUpdated, connTs, logGot, extGot, dead, fx⟩ := s
+  obtain ⟨st, link, initCb, inq, armed, stage, upd, exts, parToc, vals, isUpdated, connTs, logGot, extGot, dead, fa, ff, cl, fx⟩ := s
   obtain ⟨q, locked, pat⟩ := upd
   simp only at *
   subst hl hd hs h2' hst h4'
@@ -310,8 +312,8 @@ theorem deliver_core (d : Dev) (s : S) (h : CInv d s) :
 theorem work_core (d : Dev) (s : S) (h : CInv d s) :
     CInv d (work s).1 ∧ ((work s).2, phase (work s).1) ∈ shapes .work (phase s) ∧
     .cb .connected ∉ (work s).2 ∧ .cb .fully ∉ (work s).2 := by
-  obtain ⟨h1, h2, h3, h4, h5, h6, h7, h8, h9, h10⟩ := h
-  obtain ⟨st, link, initCb, inq, armed, stage, upd, exts, parToc, vals, isUpdated, connTs, logGot, extGot, dead, fx⟩ := s
+  obtain ⟨h1, h2, h3, h4, h5, h6, h7, h8, h9, h10, h11, h12⟩ := h
+  obtain ⟨st, link, initCb, inq, armed, stage, upd, exts, parToc, vals, isUpdated, connTs, logGot, extGot, dead, fa, ff, cl, fx⟩ := s
   obtain ⟨q, locked, pat⟩ := upd
   simp only at *
   cases link
@@ -395,8 +397,8 @@ def ckOf : Drv → CK
 theorem open_core (d : Dev) (s : S) (f : Drv) (h : CInv d s) (hl : s.link = false ∨ s.dead = true) :
     CInv d (openLink f s).1 ∧
     ((openLink f s).2, phase (openLink f s).1) ∈ shapes (ckOf f) (phase s) := by
-  obtain ⟨h1, h2, h3, h4, h5, h6, h7, h8, h9, h10⟩ := h
-  obtain ⟨st, link, initCb, inq, armed, stage, upd, exts, parToc, vals, isUpdated, connTs, logGot, extGot, dead, fx⟩ := s
+  obtain ⟨h1, h2, h3, h4, h5, h6, h7, h8, h9, h10, h11, h12⟩ := h
+  obtain ⟨st, link, initCb, inq, armed, stage, upd, exts, parToc, vals, isUpdated, connTs, logGot, extGot, dead, fa, ff, cl, fx⟩ := s
   obtain ⟨q, locked, pat⟩ := upd
   simp only at *
   cases dead
@@ -418,8 +420,8 @@ theorem open_core (d : Dev) (s : S) (f : Drv) (h : CInv d s) (hl : s.link = fals
 
 theorem close_core (d : Dev) (s : S) (h : CInv d s) :
     CInv d (closeLink s).1 ∧ ((closeLink s).2, phase (closeLink s).1) ∈ shapes .close (phase s) := by
-  obtain ⟨h1, h2, h3, h4, h5, h6, h7, h8, h9, h10⟩ := h
-  obtain ⟨st, link, initCb, inq, armed, stage, upd, exts, parToc, vals, isUpdated, connTs, logGot, extGot, dead, fx⟩ := s
+  obtain ⟨h1, h2, h3, h4, h5, h6, h7, h8, h9, h10, h11, h12⟩ := h
+  obtain ⟨st, link, initCb, inq, armed, stage, upd, exts, parToc, vals, isUpdated, connTs, logGot, extGot, dead, fa, ff, cl, fx⟩ := s
   obtain ⟨q, locked, pat⟩ := upd
   simp only at *
   cases link
@@ -445,6 +447,169 @@ theorem close_core (d : Dev) (s : S) (h : CInv d s) :
         simp [closeLink, send, linkErrorCb_eq, disconnectedCall, emit, andThen, pureS, shapes, phase, L, hu] <;>
         cinv_tac
 
+theorem phase_linked_aux (d : Dev) (c : S) (h : CInv d c) : (phase c).linked = (c.link && !c.dead) := by
+  cases hl : c.link
+  · simp [phase, hl, Ph.linked]
+  · cases hd : c.dead
+    · rcases h.linkSt hl hd with ⟨a, _, _⟩ | ⟨a, _⟩ <;> simp only [phase, hl, a, if_true]
+      · rfl
+      · split
+        · split <;> rfl
+        · rfl
+    · obtain ⟨_, hst, _, _⟩ := h.deadSt hd
+      simp [phase, hl, hst, Ph.linked]
+
+/-! ### close / link error from inside a callback, during the dispatch of a packet -/
+
+/-- outputs of the in-callback action started in phase `ph` -/
+def actShapes (a : Act) (ph : Ph) : List (List Out × Ph) :=
+  match a with
+  | .close => (shapes .close ph).map fun sh => (Out.closeCalled :: sh.1, sh.2)
+  | .err => if ph = .idle then [([], .idle)] else shapes .err ph
+
+def seqShapes (A : List (List Out × Ph)) (B : Ph → List (List Out × Ph)) : List (List Out × Ph) :=
+  A.flatMap fun x => (B x.2).map fun y => (x.1 ++ y.1, y.2)
+
+/-- the packet is taken and the all-packet callbacks have run -/
+def popShapes : Ph → List (List Out × Ph)
+  | .idle => []
+  | .req => [([.cb .established], .est)]
+  | ph => [([], ph)]
+
+/-- every possible (outputs, next phase) of `deliverAct`: nothing to deliver / packet taken, then the action /
+packet handled completely (static callbacks come first), then the action / the action before the first-packet callback
+(later connections), which then ignores the packet -/
+def shapesAct (a : Act) (ph : Ph) : List (List Out × Ph) :=
+  ([], ph) :: (seqShapes (popShapes ph) (actShapes a) ++ seqShapes (shapes .deliver ph) (actShapes a) ++
+    seqShapes [([], ph)] (actShapes a))
+
+theorem act_core (d : Dev) (a : Act) (s : S) (h : CInv d s) :
+    CInv d (actNow a s).1 ∧ ((actNow a s).2, phase (actNow a s).1) ∈ actShapes a (phase s) := by
+  cases a with
+  | close =>
+    have := close_core d s h
+    simp only [actNow, andThen, actShapes, List.mem_map]
+    exact ⟨this.1, ⟨_, this.2, by simp⟩⟩
+  | err =>
+    simp only [actNow, actShapes]
+    by_cases hl : s.link = true ∧ ¬ s.dead = true
+    · have hd : s.dead = false := by cases hx : s.dead <;> simp_all
+      have := err_core d s h hl.1 hd
+      rw [if_pos hl]
+      refine ⟨this.1, ?_⟩
+      rw [this.2.1]
+      rcases this.2.2 with ⟨a1, b1⟩ | ⟨a1, a2, b1⟩
+      · rw [a1, b1]; simp [shapes]
+      · rw [b1, if_neg a2]; revert a1 a2; cases phase s <;> simp [shapes]
+    · rw [if_neg hl]
+      have hp : phase s = .idle := by
+        have := phase_linked_aux d s h
+        cases hx : phase s <;> simp_all [Ph.linked]
+      refine ⟨h, ?_⟩
+      simp [pureS, hp]
+
+/-- the ghost counter of log entries is unconstrained once the link is gone -/
+theorem cinv_logGot (d : Dev) (s : S) (n : Nat) (h : CInv d s) (hl : s.link = false) : CInv d { s with logGot := n } := by
+  obtain ⟨h1, h2, h3, h4, h5, h6, h7, h8, h9, h10, h11, h12⟩ := h
+  constructor <;> simp only <;> first | assumption | (intro hx; rw [hl] at hx; cases hx)
+
+theorem actNow_link_false (a : Act) (s : S) (hl : s.link = true) (hd : s.dead = false) : (actNow a s).1.link = false := by
+  cases a
+  · simp [actNow, closeLink, andThen, pureS, disconnectedCall, emit]
+  · simp only [actNow, hl, hd, linkErrorCb_eq]
+    cases s.st <;> simp
+
+theorem popAct_core (d : Dev) (a : Act) (s : S) (p : Pkt) (rest : List Pkt) (h : CInv d s) (hl : s.link = true)
+    (hd : s.dead = false) (hq : s.inq = p :: rest) :
+    CInv d (popInitial s rest >>> actNow a).1 ∧
+    ((popInitial s rest >>> actNow a).2, phase (popInitial s rest >>> actNow a).1) ∈
+      seqShapes (popShapes (phase s)) (actShapes a) := by
+  obtain ⟨h1, h2, h3, h4, h5, h6, h7, h8, h9, h10, h11, h12⟩ := h
+  have h2' := h2 hl hd
+  obtain ⟨st, link, initCb, inq, armed, stage, upd, exts, parToc, vals, isUpdated, connTs, logGot, extGot, dead, fa, ff, cl, fx⟩ := s
+  obtain ⟨q, locked, pat⟩ := upd
+  simp only at *
+  subst hl hd hq h9 h11
+  rcases h2' with ⟨x, y, z⟩ | ⟨x, y⟩
+  · subst x y z
+    cases a <;> cases armed <;>
+      simp [popInitial, actNow, closeLink, send, linkErrorCb_eq, disconnectedCall, emit, andThen, pureS, seqShapes, popShapes,
+        actShapes, shapes, phase, E, L] <;>
+      cinv_tac
+  · subst x y
+    by_cases hu : stage = .up <;> cases isUpdated <;> cases a <;> cases armed <;>
+      simp [popInitial, actNow, closeLink, send, linkErrorCb_eq, disconnectedCall, emit, andThen, pureS, seqShapes, popShapes,
+        actShapes, shapes, phase, E, L, hu] <;>
+      cinv_tac
+
+theorem lateAct_core (d : Dev) (a : Act) (s : S) (p : Pkt) (rest : List Pkt) (h : CInv d s) (hl : s.link = true)
+    (hd : s.dead = false) (hq : s.inq = p :: rest) (hi : s.initCb = true) :
+    CInv d (actNow a { s with inq := rest }).1 ∧
+    ((actNow a { s with inq := rest }).2, phase (actNow a { s with inq := rest }).1) ∈
+      seqShapes [([], phase s)] (actShapes a) := by
+  obtain ⟨h1, h2, h3, h4, h5, h6, h7, h8, h9, h10, h11, h12⟩ := h
+  have h2' := h2 hl hd
+  obtain ⟨st, link, initCb, inq, armed, stage, upd, exts, parToc, vals, isUpdated, connTs, logGot, extGot, dead, fa, ff, cl, fx⟩ := s
+  obtain ⟨q, locked, pat⟩ := upd
+  simp only at *
+  subst hl hd hq h9 h11 h12 hi
+  rcases h2' with ⟨x, y, z⟩ | ⟨x, y⟩
+  · subst x z
+    cases a <;> cases armed <;>
+      simp [actNow, closeLink, send, linkErrorCb_eq, disconnectedCall, emit, andThen, pureS, seqShapes,
+        actShapes, shapes, phase, E, L] <;>
+      cinv_tac
+  · cases y
+
+theorem deliverAct_core (d : Dev) (pos : Pos) (a : Act) (s : S) (h : CInv d s) :
+    CInv d (deliverAct d pos a s).1 ∧
+    ((deliverAct d pos a s).2, phase (deliverAct d pos a s).1) ∈ shapesAct a (phase s) := by
+  have hfa := h.fixedAbort
+  cases hl : s.link
+  · simp [deliverAct, hl, pureS, shapesAct]; exact h
+  · cases hq : s.inq with
+    | nil => simp [deliverAct, hl, hq, pureS, shapesAct]; exact h
+    | cons p rest =>
+      have hd : s.dead = false := by
+        cases hx : s.dead
+        · rfl
+        · have := (h.deadSt hx).2.2.2; rw [hq] at this; cases this
+      have hpop := popAct_core d a s p rest h hl hd hq
+      have mem_l : ∀ x, x ∈ seqShapes (popShapes (phase s)) (actShapes a) → x ∈ shapesAct a (phase s) := by
+        intro x hx; simp only [shapesAct, List.mem_cons, List.mem_append]; exact Or.inr (Or.inl (Or.inl hx))
+      cases pos with
+      | allPkt =>
+        simp only [deliverAct, hl, hq, Bool.true_eq_false, not_false_eq_true, if_false, not_true_eq_false]
+        split
+        · rename_i hlate
+          have hlt := lateAct_core d a s p rest h hl hd hq hlate.1
+          simp only [hl, h.fixedFirst] at hlt
+          simp only [h.fixedFirst, if_true, andThen, pureS, List.append_nil]
+          refine ⟨hlt.1, ?_⟩
+          simp only [shapesAct, List.mem_cons, List.mem_append]
+          exact Or.inr (Or.inr hlt.2)
+        · exact ⟨hpop.1, mem_l _ hpop.2⟩
+      | port =>
+        cases hdyn : p.isDynamic
+        · -- static: the packet is handled completely first
+          have hdel := deliver_core d s h
+          have hact := act_core d a (deliver d s).1 hdel.1
+          simp only [deliverAct, hl, hq, hdyn, Bool.true_eq_false, not_false_eq_true, if_false, not_true_eq_false, Bool.false_eq_true]
+          refine ⟨hact.1, ?_⟩
+          simp only [shapesAct, List.mem_cons, List.mem_append]
+          refine Or.inr (Or.inl (Or.inr ?_))
+          simp only [seqShapes, List.mem_flatMap, List.mem_map]
+          exact ⟨_, hdel.2.1, _, hact.2, by simp [andThen]⟩
+        · simp only [deliverAct, hl, hq, hdyn, hfa, Bool.true_eq_false, not_false_eq_true, if_false, not_true_eq_false, if_true,
+            false_and, andThen, pureS, List.append_nil]
+          have hdown : (popInitial s rest >>> actNow a).1.link = false := by
+            have h1 : (popInitial s rest).1.link = true := by simp only [popInitial, emit, pureS]; split <;> exact hl
+            have h2 : (popInitial s rest).1.dead = false := by simp only [popInitial, emit, pureS]; split <;> exact hd
+            exact actNow_link_false a _ h1 h2
+          split
+          · exact ⟨cinv_logGot d _ _ hpop.1 hdown, mem_l _ hpop.2⟩
+          · exact ⟨hpop.1, mem_l _ hpop.2⟩
+
 /-! ## Part B: the wrapper and the specification automaton, by exhaustive evaluation over the finite
 wrapper state × phase × output shape -/
 
@@ -465,6 +630,7 @@ def coreOf (d : Dev) (c : S) (isOpen : Bool) : Op → R
   | .err => linkErrorCb c
   | .arm => ({ c with armed := true }, [])
   | .close => closeLink c
+  | .deliverAct pos a => deliverAct d pos a c
   | .syncOpen f => if isOpen then (c, []) else openLink f c
   | .syncClose => if isOpen then closeLink c else (c, [])
 
@@ -504,6 +670,7 @@ def shapesOp (op : Op) (ph : Ph) (isOpen : Bool) : List (List Out × Ph) :=
   | .err => shapes .err ph
   | .arm => [([], ph)]
   | .close => shapes .close ph
+  | .deliverAct _ a => shapesAct a ph
   | .syncOpen f => if isOpen then [([], ph)] else shapes (ckOf f) ph
   | .syncClose => if isOpen then shapes .close ph else [([], ph)]
 
@@ -516,6 +683,7 @@ def allowedW (w : Wrap) (ph : Ph) : Op → Bool
   | .close => !w.waitClose
   | .deliver => true
   | .work => true
+  | .deliverAct _ _ => true
 
 /-- one operation: the wrapper invariant is kept and the specification automaton accepts the outputs, moving
 from the abstraction of the old state to the abstraction of the new one -/
@@ -528,7 +696,11 @@ set_option maxRecDepth 100000 in
 theorem check_all (a b c e f g h i j : Bool) (ph : Ph) (op : Op) :
     wOk ⟨a, b, c, e, f, g, h, i, j⟩ ph = true → allowedW ⟨a, b, c, e, f, g, h, i, j⟩ ph op = true →
       checkOp ⟨a, b, c, e, f, g, h, i, j⟩ ph op = true := by
-  cases op <;> (try (rename_i dv; cases dv)) <;> cases ph <;> revert a b c e f g h i j <;> decide
+  cases op with
+  | deliverAct pos act => cases pos <;> cases act <;> cases ph <;> revert a b c e f g h i j <;> decide
+  | «open» dv => cases dv <;> cases ph <;> revert a b c e f g h i j <;> decide
+  | syncOpen dv => cases dv <;> cases ph <;> revert a b c e f g h i j <;> decide
+  | _ => cases ph <;> revert a b c e f g h i j <;> decide
 
 
 /-! ## Part C: gluing the core invariant and the finite check -/
@@ -561,64 +733,91 @@ theorem shapes_no_conn (k : CK) (ph : Ph) (hk : k ≠ .deliver) :
     ∀ sh ∈ shapes k ph, Out.cb .connected ∉ sh.1 ∧ Out.cb .fully ∉ sh.1 := by
   cases k <;> cases ph <;> first | contradiction | decide
 
+/-- operations in which an in-callback action follows the packet handling (the state the callbacks of the packet saw
+is then not the final state of the operation) -/
+def Op.isAct : Op → Bool
+  | .deliverAct _ _ => true
+  | _ => false
+
 theorem core_shape (d : Dev) (s : Sys) (op : Op) (h : SInv d s) (ha : allowed s op = true) :
     CInv d (coreOf d s.c s.w.isOpen op).1 ∧
     ((coreOf d s.c s.w.isOpen op).2, phase (coreOf d s.c s.w.isOpen op).1) ∈ shapesOp op (phase s.c) s.w.isOpen ∧
-    (.cb .connected ∈ (coreOf d s.c s.w.isOpen op).2 → complete d (coreOf d s.c s.w.isOpen op).1) ∧
-    (.cb .fully ∈ (coreOf d s.c s.w.isOpen op).2 → allVals d (coreOf d s.c s.w.isOpen op).1) := by
+    (op.isAct = false → .cb .connected ∈ (coreOf d s.c s.w.isOpen op).2 → complete d (coreOf d s.c s.w.isOpen op).1) ∧
+    (op.isAct = false → .cb .fully ∈ (coreOf d s.c s.w.isOpen op).2 → allVals d (coreOf d s.c s.w.isOpen op).1) := by
+  suffices hx : CInv d (coreOf d s.c s.w.isOpen op).1 ∧
+      ((coreOf d s.c s.w.isOpen op).2, phase (coreOf d s.c s.w.isOpen op).1) ∈ shapesOp op (phase s.c) s.w.isOpen ∧
+      (op.isAct = true ∨ ((.cb .connected ∈ (coreOf d s.c s.w.isOpen op).2 → complete d (coreOf d s.c s.w.isOpen op).1) ∧
+        (.cb .fully ∈ (coreOf d s.c s.w.isOpen op).2 → allVals d (coreOf d s.c s.w.isOpen op).1))) by
+    refine ⟨hx.1, hx.2.1, ?_, ?_⟩ <;> intro hna <;> rcases hx.2.2 with hy | hy
+    · rw [hy] at hna; cases hna
+    · exact hy.1
+    · rw [hy] at hna; cases hna
+    · exact hy.2
   have hc := h.core
   have noc : ∀ (k : CK) (r : R), k ≠ .deliver → (r.2, phase r.1) ∈ shapes k (phase s.c) →
       (.cb .connected ∈ r.2 → complete d r.1) ∧ (.cb .fully ∈ r.2 → allVals d r.1) := by
     intro k r hk hm
     have := shapes_no_conn k (phase s.c) hk _ hm
     exact ⟨fun x => absurd x this.1, fun x => absurd x this.2⟩
-  cases op with
-  | «open» f =>
-    have hl : s.c.link = false ∨ s.c.dead = true := by simp [allowed] at ha; exact ha.1
-    have := open_core d s.c f hc hl
-    refine ⟨this.1, this.2, ?_⟩
-    exact noc _ _ (by cases f <;> simp [ckOf]) this.2
-  | deliver => exact deliver_core d s.c hc
-  | work =>
-    have := work_core d s.c hc
-    exact ⟨this.1, this.2.1, fun x => absurd x this.2.2.1, fun x => absurd x this.2.2.2⟩
-  | err =>
-    have hl : s.c.link = true ∧ s.c.dead = false := by simpa [allowed] using ha
-    have := err_core d s.c hc hl.1 hl.2
-    refine ⟨this.1, ?_, ?_⟩
-    · simp only [coreOf, shapesOp, this.2.1]
-      rcases this.2.2 with ⟨a, b⟩ | ⟨a, a', b⟩
-      · rw [a, b]; simp [shapes]
-      · rw [b]; revert a a'; cases phase s.c <;> simp [shapes]
-    · have hm : ((linkErrorCb s.c).2, phase (linkErrorCb s.c).1) ∈ shapes .err (phase s.c) := by
-        rw [this.2.1]
+  cases hact : op.isAct
+  case true =>
+    cases op <;> simp only [Op.isAct] at hact <;> try cases hact
+    rename_i pos a
+    have := deliverAct_core d pos a s.c hc
+    exact ⟨this.1, this.2, Or.inl rfl⟩
+  have key : CInv d (coreOf d s.c s.w.isOpen op).1 ∧
+      ((coreOf d s.c s.w.isOpen op).2, phase (coreOf d s.c s.w.isOpen op).1) ∈ shapesOp op (phase s.c) s.w.isOpen ∧
+      (.cb .connected ∈ (coreOf d s.c s.w.isOpen op).2 → complete d (coreOf d s.c s.w.isOpen op).1) ∧
+      (.cb .fully ∈ (coreOf d s.c s.w.isOpen op).2 → allVals d (coreOf d s.c s.w.isOpen op).1) := by
+    cases op with
+    | «open» f =>
+      have hl : s.c.link = false ∨ s.c.dead = true := by simp [allowed] at ha; exact ha.1
+      have := open_core d s.c f hc hl
+      refine ⟨this.1, this.2, ?_⟩
+      exact noc _ _ (by cases f <;> simp [ckOf]) this.2
+    | deliver => exact deliver_core d s.c hc
+    | work =>
+      have := work_core d s.c hc
+      exact ⟨this.1, this.2.1, fun x => absurd x this.2.2.1, fun x => absurd x this.2.2.2⟩
+    | err =>
+      have hl : s.c.link = true ∧ s.c.dead = false := by simpa [allowed] using ha
+      have := err_core d s.c hc hl.1 hl.2
+      refine ⟨this.1, ?_, ?_⟩
+      · simp only [coreOf, shapesOp, this.2.1]
         rcases this.2.2 with ⟨a, b⟩ | ⟨a, a', b⟩
         · rw [a, b]; simp [shapes]
         · rw [b]; revert a a'; cases phase s.c <;> simp [shapes]
-      exact noc .err _ (by simp) hm
-  | arm =>
-    refine ⟨?_, ?_, by simp [coreOf], by simp [coreOf]⟩
-    · obtain ⟨h1, h2, h3, h4, h5, h6, h7, h8, h9, h10⟩ := hc
-      constructor <;> simp only [coreOf] <;> first | assumption | (intro hl; have := h3 hl; simpa [stageOk, updOk, extOk] using this)
-    · simp only [coreOf, shapesOp, List.mem_singleton]; rfl
-  | close =>
-    have := close_core d s.c hc
-    exact ⟨this.1, this.2, noc .close _ (by simp) this.2⟩
-  | syncOpen f =>
-    cases ho : s.w.isOpen
-    · have hl : s.c.link = false ∨ s.c.dead = true := by simp [allowed, ho] at ha; exact ha.1
-      have := open_core d s.c f hc hl
-      simp only [coreOf, shapesOp, ho, Bool.false_eq_true, if_false]
-      exact ⟨this.1, this.2, noc _ _ (by cases f <;> simp [ckOf]) this.2⟩
-    · simp only [coreOf, shapesOp, if_true]
-      exact ⟨hc, by simp, by simp, by simp⟩
-  | syncClose =>
-    cases ho : s.w.isOpen
-    · simp only [coreOf, shapesOp, Bool.false_eq_true, if_false]
-      exact ⟨hc, by simp, by simp, by simp⟩
-    · have := close_core d s.c hc
-      simp only [coreOf, shapesOp, if_true]
+      · have hm : ((linkErrorCb s.c).2, phase (linkErrorCb s.c).1) ∈ shapes .err (phase s.c) := by
+          rw [this.2.1]
+          rcases this.2.2 with ⟨a, b⟩ | ⟨a, a', b⟩
+          · rw [a, b]; simp [shapes]
+          · rw [b]; revert a a'; cases phase s.c <;> simp [shapes]
+        exact noc .err _ (by simp) hm
+    | arm =>
+      refine ⟨?_, ?_, by simp [coreOf], by simp [coreOf]⟩
+      · obtain ⟨h1, h2, h3, h4, h5, h6, h7, h8, h9, h10, h11, h12⟩ := hc
+        constructor <;> simp only [coreOf] <;> first | assumption | (intro hl; have := h3 hl; simpa [stageOk, updOk, extOk] using this)
+      · simp only [coreOf, shapesOp, List.mem_singleton]; rfl
+    | close =>
+      have := close_core d s.c hc
       exact ⟨this.1, this.2, noc .close _ (by simp) this.2⟩
+    | syncOpen f =>
+      cases ho : s.w.isOpen
+      · have hl : s.c.link = false ∨ s.c.dead = true := by simp [allowed, ho] at ha; exact ha.1
+        have := open_core d s.c f hc hl
+        simp only [coreOf, shapesOp, ho, Bool.false_eq_true, if_false]
+        exact ⟨this.1, this.2, noc _ _ (by cases f <;> simp [ckOf]) this.2⟩
+      · simp only [coreOf, shapesOp, if_true]
+        exact ⟨hc, by simp, by simp, by simp⟩
+    | syncClose =>
+      cases ho : s.w.isOpen
+      · simp only [coreOf, shapesOp, Bool.false_eq_true, if_false]
+        exact ⟨hc, by simp, by simp, by simp⟩
+      · have := close_core d s.c hc
+        simp only [coreOf, shapesOp, if_true]
+        exact ⟨this.1, this.2, noc .close _ (by simp) this.2⟩
+    | deliverAct pos a => simp [Op.isAct] at hact
+  exact ⟨key.1, key.2.1, Or.inr ⟨key.2.2.1, key.2.2.2⟩⟩
 
 
 theorem check_all' (w : Wrap) (ph : Ph) (op : Op) (h : wOk w ph = true) (ha : allowedW w ph op = true) :
@@ -708,9 +907,10 @@ theorem wOk_idle (w : Wrap) (h : wOk w .idle = true) : w = { fixD1 := true } := 
 
 /-- re-opening after any history = opening a fresh object, up to the inert `_lock_pattern` -/
 theorem reopen_eq (d : Dev) (c : S) (h : CInv d c) (hl : c.link = false) (ha : c.armed = false) :
-    (openLink .ok c).1 = { (openLink .ok S.init).1 with upd := { q := [], locked := false, pat := c.upd.pat } } ∧
+    (openLink .ok c).1 = { (openLink .ok S.init).1 with upd := { q := [], locked := false, pat := c.upd.pat },
+                                                          cbLate := c.cbLate || !c.initCb } ∧
     (openLink .ok c).2 = (openLink .ok S.init).2 := by
-  obtain ⟨h1, h2, h3, h4, h5, h6, h7, h8, h9, h10⟩ := h
+  obtain ⟨h1, h2, h3, h4, h5, h6, h7, h8, h9, h10, h11, h12⟩ := h
   obtain ⟨x1, x2, x3, x4, x5⟩ := h1 hl
   have hd : c.dead = false := by
     cases hc : c.dead
@@ -720,11 +920,54 @@ theorem reopen_eq (d : Dev) (c : S) (h : CInv d c) (hl : c.link = false) (ha : c
     cases hc : c.connTs
     · rfl
     · have := (h8 hc).1; rw [hl] at this; cases this
-  obtain ⟨st, link, initCb, inq, armed, stage, upd, exts, parToc, vals, isUpdated, connTs, logGot, extGot, dead, fx⟩ := c
+  obtain ⟨st, link, initCb, inq, armed, stage, upd, exts, parToc, vals, isUpdated, connTs, logGot, extGot, dead, fa, ff, cl, fx⟩ := c
   obtain ⟨q, locked, pat⟩ := upd
   simp only at *
-  subst hl hd ha x1 x2 x3 x4 x5 hts h9
+  subst hl hd ha x1 x2 x3 x4 x5 hts h9 h11 h12
   simp [openLink, send, emit, andThen, pureS, S.init]
   decide
+
+
+/-- the in-callback action never signals `connected` or `fully_connected` -/
+theorem actNow_no_conn (a : Act) (s : S) : Out.cb .connected ∉ (actNow a s).2 ∧ Out.cb .fully ∉ (actNow a s).2 := by
+  cases a <;> simp only [actNow, closeLink, send, andThen, pureS, disconnectedCall, emit]
+  · cases s.link <;> cases s.dead <;> cases s.armed <;> simp [linkErrorCb_eq] <;> cases s.st <;> simp
+  · split
+    · rw [linkErrorCb_eq]; cases s.st <;> simp
+    · simp
+
+/-- `connected` / `fully_connected` in an operation with an in-callback action was signalled by the normal handling
+of the packet (repaired code: an aborted fetcher does not finish) -/
+theorem deliverAct_cb (d : Dev) (pos : Pos) (a : Act) (s : S) (hf : s.fixAbort = true) (hf2 : s.fixFirst = true) (e : Ev)
+    (he : e = .connected ∨ e = .fully) (h : Out.cb e ∈ (deliverAct d pos a s).2) : Out.cb e ∈ (deliver d s).2 := by
+  have hact : ∀ s', Out.cb e ∉ (actNow a s').2 := by
+    intro s'; rcases he with he | he <;> subst he
+    · exact (actNow_no_conn a s').1
+    · exact (actNow_no_conn a s').2
+  have hpop : ∀ rest, Out.cb e ∉ (popInitial s rest).2 := by
+    intro rest; simp only [popInitial, emit, pureS]; split <;> rcases he with he | he <;> subst he <;> simp
+  simp only [deliverAct] at h
+  split at h
+  · simp [pureS] at h
+  · split at h
+    · simp [pureS] at h
+    · rename_i p rest hq
+      cases pos <;> simp only at h
+      · split at h
+        · simp only [hf2, if_true, andThen, pureS, List.append_nil] at h
+          exact absurd h (hact _)
+        · simp only [andThen, List.mem_append] at h
+          rcases h with h | h
+          · exact absurd h (hpop rest)
+          · exact absurd h (hact _)
+      · split at h
+        · simp only [hf, not_true_eq_false, false_and, if_false, andThen, pureS, List.append_nil, List.mem_append] at h
+          rcases h with h | h
+          · exact absurd h (hpop rest)
+          · exact absurd h (hact _)
+        · simp only [andThen, List.mem_append] at h
+          rcases h with h | h
+          · exact h
+          · exact absurd h (hact _)
 
 end CfVerif.C02
